@@ -86,6 +86,10 @@ SPIF_TYPE(strclass) SPIF_STRCLASS_VAR(str) = &s_class;
 /* *INDENT-ON* */
 
 static const size_t buff_inc = 4096;
+#if defined(LIBAST_VERIF) && defined(LIBAST_VERIF_BUFF_INC)
+/* verification hook: scaled read-chunk size so chunk-boundary arithmetic is within solver reach */
+# define buff_inc ((size_t) LIBAST_VERIF_BUFF_INC)
+#endif
 
 spif_str_t
 spif_str_new(void)
